@@ -26,6 +26,9 @@ re-spellings never reach a rule:
   N14 a for statement that unpacks its elements (`for a, (b, c) in pairs`) reads them by position instead (one loop variable, a -> v[0],
       c -> v[1][1]); enumerate() and .items() loops keep their unpacked form
   N15 a local bound once, at the top level of a function, to a plain access path (`func = node.func`) is replaced by that path
+  N16 `a, b = x, y` becomes `a = x; b = y` when neither a nor b is read on the right-hand side
+  N17 `d = {"a": x, ...}` (constant keys, local d) becomes `d = {}` followed by the item assignments; `d.update({...})` and
+      `d.update({K: V for ...})` become the item assignments / the loops that make them
 
 Positions are kept (reports still name the original lines).  The transformation is the same for the tree the rules were
 written against and for the tree under analysis, so it can only remove differences, never create one.
@@ -280,6 +283,37 @@ def _one_assign(stmts):
     return None
 
 
+def _dict_items(st):
+    """N17: `d = {"a": x, "b": y}` (constant keys) -> `d = {}; d["a"] = x; d["b"] = y`;  `d.update({...})` / `d.update({K: V for ...})`
+    -> the item assignments / the for-if loops that assign d[K] = V.  None when not applicable."""
+    def setitem(d, k, v):
+        return ast.copy_location(ast.Assign(targets=[ast.Subscript(value=_as_load(d), slice=k, ctx=ast.Store())], value=v), st)
+
+    if isinstance(st, ast.Assign) and len(st.targets) == 1 and isinstance(st.targets[0], ast.Name) and isinstance(st.value, ast.Dict) \
+            and st.value.keys and all(isinstance(k, ast.Constant) for k in st.value.keys) \
+            and not all(isinstance(v, ast.Constant) for v in st.value.values):          # (a table of constants stays a literal)
+        d = st.targets[0]
+        if any(isinstance(n, ast.Name) and n.id == d.id for v in st.value.values for n in ast.walk(v)):
+            return None
+        out = [ast.copy_location(ast.Assign(targets=[d], value=ast.copy_location(ast.Dict(keys=[], values=[]), st.value)), st)]
+        return out + [setitem(d, k, v) for k, v in zip(st.value.keys, st.value.values)]
+    if isinstance(st, ast.Expr) and isinstance(st.value, ast.Call) and isinstance(st.value.func, ast.Attribute) and st.value.func.attr == "update" \
+            and len(st.value.args) == 1 and not st.value.keywords and _plain(st.value.func.value):
+        d, a = st.value.func.value, st.value.args[0]
+        if isinstance(a, ast.Dict) and a.keys and all(k is not None for k in a.keys):
+            return [setitem(d, k, v) for k, v in zip(a.keys, a.values)]
+        if isinstance(a, ast.DictComp):
+            inner = [setitem(d, a.key, a.value)]
+            for g in reversed(a.generators):
+                if g.is_async:
+                    return None
+                for c in reversed(g.ifs):
+                    inner = [ast.copy_location(ast.If(test=c, body=inner, orelse=[]), st)]
+                inner = [ast.copy_location(ast.For(target=g.target, iter=g.iter, body=inner, orelse=[], type_comment=None), st)]
+            return inner
+    return None
+
+
 def _as_load(t):
     import copy
     c = copy.deepcopy(t)
@@ -372,6 +406,21 @@ class _Norm(ast.NodeTransformer):
     def _block(self, body, in_function=True):
         out = []
         if in_function:
+            # N16: `a, b = x, y` is `a = x; b = y` when no target is read on the right-hand side
+            split = []
+            for st in body:
+                if isinstance(st, ast.Assign) and len(st.targets) == 1 and isinstance(st.targets[0], (ast.Tuple, ast.List)) \
+                        and isinstance(st.value, (ast.Tuple, ast.List)) and len(st.targets[0].elts) == len(st.value.elts) \
+                        and all(isinstance(t, ast.Name) for t in st.targets[0].elts) and not any(isinstance(v, ast.Starred) for v in st.value.elts):
+                    tn = {t.id for t in st.targets[0].elts}
+                    if [t.id for t in st.targets[0].elts] == [v.id if isinstance(v, ast.Name) else None for v in st.value.elts]:
+                        continue                                   # a, b = a, b
+                    if not any(isinstance(n, ast.Name) and n.id in tn for v in st.value.elts for n in ast.walk(v)) and len(tn) == len(st.value.elts):
+                        for t, v in zip(st.targets[0].elts, st.value.elts):
+                            split.append(ast.copy_location(ast.Assign(targets=[t], value=v), st))
+                        continue
+                split.append(st)
+            body = split
             expanded = []
             if self.fn_stack:
                 body = self._n4(list(body))       # `t = a if c else b; return t` is `return a if c else b` before the conditional is expanded
@@ -381,6 +430,8 @@ class _Norm(ast.NodeTransformer):
                     expanded.append(self.visit(rep))          # nested conditional expressions, guard-clause form of the new if
                     continue
                 reps = _appends(st)
+                if reps is None:
+                    reps = _dict_items(st)
                 if reps is not None:
                     for r in reps:
                         expanded.append(self.visit(r))
@@ -394,6 +445,9 @@ class _Norm(ast.NodeTransformer):
         for st in body:
             if _is_quiet_log(st):
                 continue
+            if isinstance(st, ast.Assign) and len(st.targets) == 1 and isinstance(st.targets[0], ast.Name) and isinstance(st.value, ast.Name) \
+                    and st.value.id == st.targets[0].id:
+                continue                                           # x = x
             if in_function and isinstance(st, ast.AnnAssign) and isinstance(st.target, ast.Name) and st.simple:
                 if st.value is None:
                     continue
@@ -483,6 +537,12 @@ class _Norm(ast.NodeTransformer):
                             out[-1] = ast.copy_location(ast.Assign(targets=a.targets, value=g), prev)
                             continue
             out.append(st)
+        # `if k in d: return d[k]` + `return V`
+        if len(out) >= 2 and isinstance(out[-1], ast.Return) and out[-1].value is not None and isinstance(out[-2], ast.If) and not out[-2].orelse \
+                and len(out[-2].body) == 1 and isinstance(out[-2].body[0], ast.Return) and out[-2].body[0].value is not None:
+            g = _get_form(out[-2].test, out[-2].body[0].value, out[-1].value)
+            if g is not None:
+                out[-2:] = [ast.copy_location(ast.Return(value=g), out[-2])]
         return out
 
     def visit_IfExp(self, node):
